@@ -110,7 +110,7 @@ def search(ctx):
            'outcomes': kinds, 'samples': samples, 'witnesses': wit}
     # the callable budget functions on the trace inputs, without the model: a process that dies between an `I` line and its
     # `O` line trapped inside the real function (the tie alone would only report a broken correspondence)
-    cmd = [h, 'trace', str(ctx.seed), '50']
+    cmd = [h, 'trace', str(ctx.seed), '300' if ctx.quick else '5000']
     rc, out, err = _run(cmd)
     lines = [l for l in out.split('\n') if l.startswith('I ') or l.startswith('O ')]
     res['cases'] += sum(1 for l in lines if l.startswith('I '))
@@ -120,6 +120,13 @@ def search(ctx):
         wit.append({'suite': 'ranges-search-fn', 'input': inflight, 'command': ' '.join(cmd), 'expected': 'the function returns',
                     'observed': 'trap: ' + ' | '.join(rep)[:600],
                     'why': 'a budget function of the real encoder trapped under UBSan on an admitted argument tuple (32-bit overflow)'})
+    # every generated input is inside the domain of the theorems: an int32 evaluation that wraps (w=0) is an overflow on an
+    # admitted input even when the model's trace agrees entry by entry
+    wrapped = [(lines[i - 1][2:], lines[i][2:]) for i in range(1, len(lines)) if lines[i].startswith('O ') and lines[i].endswith('w=0')]
+    res['wrapped_in_domain'] = len(wrapped)
+    for inp, obs in wrapped[:3]:
+        wit.append({'suite': 'ranges-search-fn', 'input': inp, 'command': ' '.join(cmd), 'expected': 'w=1 (all intermediates fit int32)',
+                    'observed': obs[:400], 'why': 'evaluated in int32 the C expressions wrap on an admitted input'})
     # out_data_bytes = 10^8 and INT_MAX (honest buffers): known to trap on the unchanged tree, see HUGE_FINDING_ID
     cmd = [h, 'enc', str(ctx.seed), '0', 'huge']
     rc, out, err = _run(cmd)
